@@ -150,7 +150,7 @@ def snapshot_obs(pl, pdesc: dict, fail: dict, tmp: str) -> dict:
     return obs
 
 
-def run_pool_fail(scen: dict, storage, pool_kind: str, fail: dict, seed: int) -> dict:
+def run_pool_fail(scen: dict, storage, pool_kind: str, fail: dict, seed: int, per_output: bool = False) -> dict:
     pdesc = pmap.tla_desc_to_py(scen["desc"])
     for fd in pdesc["funcs"]:
         if fd["name"] == fail["f"]:
@@ -159,14 +159,26 @@ def run_pool_fail(scen: dict, storage, pool_kind: str, fail: dict, seed: int) ->
     logf = tmp + "_calls.ndjson"
     build.reset_log(logf)
     out: dict = {}
-    ex = ThreadPoolExecutor(3) if pool_kind == "thread" else ProcessPoolExecutor(3)
+    pools = []
+    if per_output:
+        # one single-worker pool per output: tasks of the other (slow) function are still queued when this one fails
+        import time as _time
+        ex = {}
+        for fd in pdesc["funcs"]:
+            key = fd["outputs"][0] if len(fd["outputs"]) == 1 else tuple(fd["outputs"])
+            ex[key] = ThreadPoolExecutor(1)
+        pools = list(ex.values())
+        build.DELAY = lambda fname, kw: _time.sleep(0.0 if fname == fail["f"] else 0.05)
+    else:
+        ex = ThreadPoolExecutor(3) if pool_kind == "thread" else ProcessPoolExecutor(3)
+        pools = [ex]
 
     def body():
         with contextlib.redirect_stdout(io.StringIO()):
             pl = build.make_pipeline(pdesc)
         inp = pmap.inputs_to_py(scen["inputs"], {})
         out["r"] = pmap.do_map(pl, pdesc, inp, run_folder=tmp, storage=storage, parallel=True, executor=ex,
-                               settle=lambda: ex.shutdown(wait=True))
+                               settle=lambda: [p.shutdown(wait=True) for p in pools])
     th = threading.Thread(target=body, daemon=True)
     th.start()
     th.join(timeout=600)
@@ -176,8 +188,10 @@ def run_pool_fail(scen: dict, storage, pool_kind: str, fail: dict, seed: int) ->
             evs = [pmap.ev(e="begin", F=[fd["name"] for fd in pdesc["funcs"]])] + [pmap.ev(e="hang")]
         else:
             evs, _ = out["r"]
-            ex.shutdown(wait=True)
+            for p in pools:
+                p.shutdown(wait=True)
     finally:
+        build.DELAY = None
         build.reset_log()
         shutil.rmtree(tmp, ignore_errors=True)
         with contextlib.suppress(FileNotFoundError):
@@ -288,6 +302,15 @@ def run(ctx: Ctx) -> None:
         ptraces.append(run_pool_fail(sc, st, kind, fl, ctx.seed * 100 + k))
         pfails.append(fl)
         ctx.case({"pool": kind, "st": st, "fl": fl, "d": sc["desc"]})
+    # two functions of one generation on different single-worker executors, the fast one fails while the slow one still
+    # has queued tasks: the caller must see the user's exception
+    tg, _ = c03.export_schedules(ctx, "twogen", 1)
+    for k in range(2 if quick else 8):
+        cls, args = EXC_KINDS[k % len(EXC_KINDS)]
+        fl = {"f": "g", "when": "*", "cls": cls, "args": args}
+        ptraces.append(run_pool_fail(tg, c03.STORAGES[k % 3], "thread", fl, ctx.seed * 100 + 50 + k, per_output=True))
+        pfails.append(fl)
+        ctx.case({"pool": "per-output", "fl": fl, "k": k})
     validate(ctx, ptraces, "pools", pfails)
     ctx.exhaustive = False
 
